@@ -587,15 +587,23 @@ def nary_over(pool, tier, max_chain=2):
                     out.append(s)
         r = len(shape)
         for (ia, (a, ai)), (ib, (b, bi)) in itertools.product(enumerate(items), repeat=2):
-            if tier == "quick" and ia >= ib:
-                continue  # unordered pairs of distinct children suffice to expose a swap
+            if tier == "quick" and ib != (ia + 1) % len(items):
+                continue  # quick: each child paired with its (cyclic) neighbour of the same shape - distinct children expose a swap
             for ax in range(-(r + 1), r + 1):
                 s = L("Stack", c=[a, b], axis=ax)
                 if _well(s):
                     out.append(s)
     # Concatenate: shapes equal except along axis
+    nxt = {}
+    if tier == "quick":  # neighbour pairing among concatenation-compatible children (same rank)
+        by_rank = {}
+        for i, (c_, ci_) in enumerate(pool):
+            by_rank.setdefault(len(ci_.shape), []).append(i)
+        for idxs in by_rank.values():
+            for j, i in enumerate(idxs):
+                nxt[i] = {idxs[(j + 1) % len(idxs)], idxs[(j + 2) % len(idxs)]}
     for (ia, (a, ai)), (ib, (b, bi)) in itertools.product(enumerate(pool), repeat=2):
-        if tier == "quick" and ia >= ib:
+        if tier == "quick" and (ib not in nxt.get(ia, ()) or ia == ib):
             continue
         r = len(ai.shape)
         if r == 0 or len(bi.shape) != r:
@@ -639,7 +647,7 @@ def companions(c, ci):
     return [x for x in out if _well(x)]
 
 
-D1_CORE_QUICK = 14
+D1_CORE_QUICK = 10
 
 
 def enumerate_exprs(tier):
@@ -658,6 +666,8 @@ def enumerate_exprs(tier):
         d1 += [s for s in (L("Chain", c=[a, b, c]) for a, b, c in itertools.product(reps[:12], repeat=3)) if _well(s)]
     d1.append(L("Vmap", c=L("Affine", shape=[]), mode="mixed", n=3, cond_axis=None))
     d1 = dedupe(d1)
+    if tier == "quick":
+        d1 = _one_per_kind(d1)
     # depth 2: every unary combinator and the companion binaries over a core of depth-1 expressions
     # (one per combinator kind x semantic option; quick keeps the first D1_CORE_QUICK kinds round-robin)
     core = _one_per_kind(d1)
@@ -667,6 +677,8 @@ def enumerate_exprs(tier):
         ci = info(c)
         d2 += unary_over(c, ci, tier) + companions(c, ci)
     d2 = dedupe(d2)
+    if tier == "quick":
+        d2 = _one_per_kind(d2)
     d3 = []
     if tier != "quick":
         core2 = _round_robin(_one_per_kind(d2), 36)
